@@ -13,9 +13,6 @@ theorem ind_att {p c : Nat} {cn : Conn} (hp : cn.pid = p) (hs : cn.sAtt = true) 
   unfold ind b2n
   simp [hp, hs]
 
-theorem inflight_other {fl : Option (Nat × Nat × Bool)} {p a c : Nat} (h : a ≠ p)
-    (hfl : ∀ c' fr, fl = some (p, c', fr) → True) : True := trivial
-
 /-- the chunk is referenced by a loan or is the fresh in-flight chunk: its counter is exactly one -/
 def Pinned (fl : Option (Nat × Nat × Bool)) (p : Nat) (P : Pub) (y : Nat) : Prop :=
   (∃ l, (l, y) ∈ P.loans) ∨ fl = some (p, y, true)
@@ -49,14 +46,16 @@ theorem InvB.pinned_unused (h : InvB fl w) {p : Nat} {P : Pub} (hP : getP w p = 
   omega
 
 /-- publisher `p` and its attached connection `(p, s)` change together -/
-theorem InvB.updPC (h : InvB fl w) {p s : Nat} {P P' : Pub} {c x : Conn}
+theorem InvB.updPC' (h : InvB fl w) {p s : Nat} {P P' : Pub} {c x : Conn}
     (hP : getP w p = some P) (hex : P.ex = true) (hC : getC w p s = some c) (hsa : c.sAtt = true)
-    (hxp : x.pid = p) (hxs : x.sid = s) (hxa : x.sAtt = true)
+    (hxp : x.pid = p) (hxs : x.sid = s)
     (hrf : RcFreeOnly P P') (hlen : P'.rc.length = P.n) (hul : x.used.length = P.n) (hfree : FreeOK P')
-    (hrc : ∀ y, y < P.n → P'.rc.getD y 0 + b2n (c.used.getD y false) = P.rc.getD y 0 + b2n (x.used.getD y false))
-    (hpin : ∀ y, Pinned fl p P y → x.used.getD y false = false)
-    (hinq : ∀ S, getS w s = some S → (inq x S).Nodup ∧ ∀ y ∈ inq x S, x.used.getD y false = true)
-    (hppi : ∀ ch q, (ch, q) ∈ x.sub → P.payload.getD ch 0 = P.sent.getD q 0 ∧ q < P.seq) :
+    (hrc : ∀ y, y < P.n → P'.rc.getD y 0 + b2n (c.used.getD y false) = P.rc.getD y 0 + ind p y x)
+    (hpin : ∀ y, Pinned fl p P y → ind p y x = 0)
+    (hinq : x.sAtt = true → ∀ S, getS w s = some S → (inq x S).Nodup ∧ ∀ y ∈ inq x S, x.used.getD y false = true)
+    (hun : x.sAtt = false → ∀ y, x.used.getD y false = false)
+    (hppi : ∀ S, getS w s = some S → (x.sAtt = true ∨ S.alive = true) → ∀ ch q, (ch, q) ∈ x.sub →
+      P.payload.getD ch 0 = P.sent.getD q 0 ∧ q < P.seq) :
     InvB fl (setP (setC w x) p P') := by
   obtain ⟨hcm, hcp, hcs⟩ := getC_some hC
   have hCx : getC w x.pid x.sid = some c := by rw [hxp, hxs]; exact hC
@@ -93,6 +92,7 @@ theorem InvB.updPC (h : InvB fl w) {p s : Nat} {P P' : Pub} {c x : Conn}
     intro y hy
     have h1 := hrc y (h.pinned_rc hP hex hy).1
     rw [hunpin y hy, hpin y hy] at h1
+    have : b2n false = 0 := rfl
     omega
   constructor
   · exact h.keys.setC x
@@ -120,7 +120,7 @@ theorem InvB.updPC (h : InvB fl w) {p s : Nat} {P P' : Pub} {c x : Conn}
       rw [floans, fhist]
       have h1 := h.rc a P hP hex y hy
       have h2 := hcnt a y
-      rw [ind_att hcp hsa, ind_att hxp hxa] at h2
+      rw [ind_att hcp hsa] at h2
       have h3 := hrc y hy
       omega
     · have h1 := h.rc a Q h0 hQe y hy
@@ -157,13 +157,13 @@ theorem InvB.updPC (h : InvB fl w) {p s : Nat} {P P' : Pub} {c x : Conn}
   · intro cn hcn hs Q S hq hQe hS
     rw [getS_setP, getS_setC] at hS
     rcases hmem cn hcn with rfl | ⟨hm, hne⟩
-    · rw [hxs] at hS; exact hinq S hS
+    · rw [hxs] at hS; exact hinq hs S hS
     · rcases gP _ Q hq with ⟨hap, rfl⟩ | ⟨_, h0⟩
       · exact h.inqOk cn hm hs P S (hap ▸ hP) hex hS
       · exact h.inqOk cn hm hs Q S h0 hQe hS
   · intro cn hcn hs Q hq hQe
     rcases hmem cn hcn with rfl | ⟨hm, hne⟩
-    · rw [hxa] at hs; cases hs
+    · exact hun hs
     · rcases gP _ Q hq with ⟨hap, rfl⟩ | ⟨_, h0⟩
       · exact h.unatt cn hm hs P (hap ▸ hP) hex
       · exact h.unatt cn hm hs Q h0 hQe
@@ -172,10 +172,26 @@ theorem InvB.updPC (h : InvB fl w) {p s : Nat} {P P' : Pub} {c x : Conn}
     rcases hmem cn hcn with rfl | ⟨hm, hne⟩
     · rw [hxp] at hq
       rcases gP _ Q hq with ⟨_, rfl⟩ | ⟨hap, _⟩
-      · rw [fpay, fsent, fseq]; exact hppi ch q hm'
+      · rw [fpay, fsent, fseq]; exact hppi S (hxs ▸ hS) hor ch q hm'
       · exact absurd rfl hap
     · rcases gP _ Q hq with ⟨hap, rfl⟩ | ⟨_, h0⟩
       · rw [fpay, fsent, fseq]; exact h.ppi cn hm P S (hap ▸ hP) hS hor ch q hm'
       · exact h.ppi cn hm Q S h0 hS hor ch q hm'
+
+
+/-- publisher `p` and its attached connection `(p, s)` change together (the connection stays attached) -/
+theorem InvB.updPC (h : InvB fl w) {p s : Nat} {P P' : Pub} {c x : Conn}
+    (hP : getP w p = some P) (hex : P.ex = true) (hC : getC w p s = some c) (hsa : c.sAtt = true)
+    (hxp : x.pid = p) (hxs : x.sid = s) (hxa : x.sAtt = true)
+    (hrf : RcFreeOnly P P') (hlen : P'.rc.length = P.n) (hul : x.used.length = P.n) (hfree : FreeOK P')
+    (hrc : ∀ y, y < P.n → P'.rc.getD y 0 + b2n (c.used.getD y false) = P.rc.getD y 0 + b2n (x.used.getD y false))
+    (hpin : ∀ y, Pinned fl p P y → x.used.getD y false = false)
+    (hinq : ∀ S, getS w s = some S → (inq x S).Nodup ∧ ∀ y ∈ inq x S, x.used.getD y false = true)
+    (hppi : ∀ ch q, (ch, q) ∈ x.sub → P.payload.getD ch 0 = P.sent.getD q 0 ∧ q < P.seq) :
+    InvB fl (setP (setC w x) p P') := by
+  refine h.updPC' hP hex hC hsa hxp hxs hrf hlen hul hfree ?_ ?_ (fun _ => hinq) ?_ (fun _ _ _ => hppi)
+  · intro y hy; rw [ind_att hxp hxa]; exact hrc y hy
+  · intro y hy; rw [ind_att hxp hxa, hpin y hy]; rfl
+  · intro hf; rw [hxa] at hf; cases hf
 
 end Iox2.PubSub.C01P
